@@ -133,7 +133,8 @@ def step (s : St) (w : List String) : St × String :=
           let r := m.read n
           let (cp, rst) := Flat.read d n
           ({ m := some r.msg },
-           s!"R ret={r.total} out={toHex (if nodst then [] else r.out)}{tail m r.msg "0"} | S ret={cp.length} out={toHex (if nodst then [] else cp)} ; {toHex rst}")
+           let hd (l : List Byte) : String := match l with | b :: _ => toHex [b] | [] => "none"
+           s!"R ret={r.total} out={toHex (if nodst then [] else r.out)} head={hd r.msg.base}{tail m r.msg "0"} | S ret={cp.length} out={toHex (if nodst then [] else cp)} head={hd rst} ; {toHex rst}")
         | none => (s, "bad-op")
       | "len", [] =>
         (s, s!"R ret={m.length}{tail m m "0"} | S ret={Flat.length d} ; {toHex d}")
